@@ -221,8 +221,14 @@ def rule_prev_class(ctx):
             defs_in = [d for d in fn.defs.get(prev[1], []) if d[0] in body]
             if not defs_in:
                 continue  # not loop-carried
-            n += 1
             defblocks = set(d[0] for d in defs_in)
+            # loop-carried = the value used here can come from an earlier iteration: some path from the loop
+            # header reaches the use without passing an in-loop definition.  A local that is (re)computed on every
+            # path of the iteration before it is used (e.g. `match pos.checked_sub(1) {..}`) is iteration-local:
+            # its arguments are checked by C03.bonus-args instead.
+            if bi not in fn.reach_from(h, removed_nodes=defblocks) and bi not in defblocks:
+                continue
+            n += 1
             r = fn.reach_from(h, removed_nodes=defblocks)
             stale = [s for s in srcs if s in r]
             key = "%s|prev-class|%s" % (fn.path, fn.names.get(prev[1], "_%d" % prev[1]))
